@@ -47,6 +47,8 @@ def const_pool():
         pool.append(N("Bytes", "b", n=list(text.encode("utf-8")), s="str:" + text))
     pool += [N("Bytes", "b", n=_addr_pk(a), s="addr:" + a) for a in ADDRS]
     pool += [N("Bytes", "b", n=list(tealtok.selector(sig)), s="method:" + sig) for sig in ("add(uint64,uint64)uint64", "f()void")]
+    # the same *text* under different constructors denotes different bytes (string vs selector vs public key vs placeholder)
+    pool += [N("Bytes", "b", n=list(t.encode()), s="str:" + t) for t in ("add(uint64,uint64)uint64", "f()void", ADDRS[0], "TMPL_BA", "0x6162", "base64(YQ==)", "5")]
     pool += [N("Bytes", "b", n=list(tealtok.tmpl_value("TMPL_" + t, 5)), s="tmpl:TMPL_" + t) for t in ("BA", "BB")]
     pool += [N("Bytes", "b", n=list(tealtok.tmpl_value("TMPL_AD", 5)), s="tmpladdr:TMPL_AD")]
     return pool
@@ -97,6 +99,16 @@ def programs(tier, rnd):
     for raw in (b"a", b"hello world", b"\xff\x00"):
         same = [p for p in byts if bytes(p["n"]) == raw]
         out.append(program(same * 2, "spellings-%s" % raw.hex()))
+    # one text, several constructors: both orders, once and repeated (constant block membership)
+    bytext = {}
+    for p_ in byts:
+        if p_["s"]:
+            bytext.setdefault(p_["s"].split(":", 1)[1], []).append(p_)
+    for text, group in sorted(bytext.items()):
+        if len(group) > 1:
+            for r in (1, 2, 3):
+                out.append(program(group * r, "sametext-%d-%s" % (r, text[:12])))
+                out.append(program(list(reversed(group)) * r, "sametext-rev-%d-%s" % (r, text[:12])))
     # more than 255 distinct repeated constants
     many = [N("Int", n=tealtok.digits(1000 + 3 * j)) for j in range(260 if tier == "quick" else 300)]
     out.append(program(many + many, "many-ints"))
